@@ -97,7 +97,10 @@ func (f *rawFileWriter) Close() error {
 	}
 	verifYield(130, 0) // verif: terminator buffered
 
-	f.w.Flush()
+	if err := f.w.Flush(); err != nil {
+		f.fd.Close()
+		return err
+	}
 	verifYield(131, 0)       // verif: flushed
 	defer verifYield(132, 0) // verif: file closed
 	return f.fd.Close()
